@@ -260,6 +260,18 @@ class alarm:
         return False
 
 
+def _library_frame(ex):
+    """Name of the innermost library function in the traceback of ex, or None if no library frame is involved."""
+    import traceback
+    from . import loader
+    root = loader.ROOT + '/'
+    frames = traceback.extract_tb(ex.__traceback__)
+    lib = [f for f in frames if f.filename.startswith(root)]
+    if not lib or not frames[-1].filename.startswith(root):
+        return None
+    return lib[-1].name
+
+
 class Engine:
     """Base class.  An engine owns a world; `start` builds it from a JSON config (the run's first event),
     `gen` proposes the next JSON event (drawing from the Gen only), `apply` executes one event against the
@@ -336,7 +348,19 @@ class Engine:
         rec.events.append(ev)
         try:
             with alarm():
-                obs, incs = self.apply(ev)
+                try:
+                    obs, incs = self.apply(ev)
+                except SimTimeout:
+                    raise
+                except Exception as ex:
+                    # An exception escaping from apply() is a harness failure - unless it was raised INSIDE the library by
+                    # a plain, valid call the engine makes for its own bookkeeping (e.g. Bits(bin=...) to rebuild a twin):
+                    # then the library is what misbehaved, and that is an incident like any other.
+                    where = _library_frame(ex)
+                    if where is None:
+                        raise
+                    obs = {'engine_helper_failed': exc_name(ex)}
+                    incs = [self.inc(f'engine-helper-call|{where}|raised:{exc_name(ex)}', event=ev, message=str(ex)[:200])]
         except SimTimeout:
             obs, incs = {'hang': True}, [self.inc('hang|' + str(ev.get('op', ev.get('k', '?'))), event=ev)]
             rec.obs.append(obs)
